@@ -2,6 +2,7 @@
 // lines of lean/Nstd/Hash/Driver.lean on the real headers, with a key type whose hash
 // function is selected per run, and prints the same observation line.
 #include "common/hx.h"
+#include <sys/time.h>
 #include <nstd/Base.hpp>
 
 #include <nstd/String.hpp>
@@ -570,6 +571,14 @@ int main()
     long res = -1;
     bool ok;
     g_opBytes = 0;
+    {
+      // an op line that spins (a chain or list closed into a cycle) is ended after 5 s of its own CPU time (not wall time:
+      // the machine may be loaded): reported as a crash on that line, and shrinking does not wait for the run's time-out
+      struct itimerval it;
+      it.it_interval.tv_sec = 0; it.it_interval.tv_usec = 0;
+      it.it_value.tv_sec = 5; it.it_value.tv_usec = 0;
+      setitimer(ITIMER_VIRTUAL, &it, 0);
+    }
     if(hxIs(l, "reset", 0)) { configure(0, 0, 6); observe(-1); continue; }
     if(hxIs(l, "origin", 1)) { g_origin = (int)hxNum(l, 1); observe(-1); continue; }
     if(hxIs(l, "cfg", 3))
